@@ -227,6 +227,7 @@ inductive Forest
   | nil
   | write (n : Nat) (rest : Forest)
   | exec (b : Act) (body : Forest) (rest : Forest)
+  | kw (b : Act) (rest : Forest)      -- an execution of `b` whose `_prepare_kwargs` raises `InvalidTask`
 deriving Repr
 
 /-- the step list of a forest running in the context of `o`; a write at top level (no python-action running)
@@ -236,6 +237,16 @@ def flatten : Option Act → Forest → List Ev
   | some a, .write n rest => .write a n :: flatten (some a) rest
   | none, .write _ rest => flatten none rest
   | o, .exec b body rest => [.save b, .set b] ++ flatten (some b) body ++ [.restore b, .read b] ++ flatten o rest
+  | o, .kw b rest => execSteps true b [] ++ flatten o rest
+
+/-- the same with the pinned order of `PythonAction.execute` (F-C17b) -/
+def flattenPinned : Option Act → Forest → List Ev
+  | _, .nil => []
+  | some a, .write n rest => .write a n :: flattenPinned (some a) rest
+  | none, .write _ rest => flattenPinned none rest
+  | o, .exec b body rest =>
+    [.save b, .set b] ++ flattenPinned (some b) body ++ [.restore b, .read b] ++ flattenPinned o rest
+  | o, .kw b rest => execStepsPinned true b [] ++ flattenPinned o rest
 
 /-- per-thread program order: the steps of every action occur as `save, set, write*, restore, read`
     (phase 0 not started … 5 finished).  Any interleaving of such threads is accepted. -/
